@@ -41,7 +41,7 @@ def check_reader_calls(ctx, rep):
             rp = b.root_place(pl) if pl else None
             if rp is not None:
                 ty = b.local_ty(rp["l"])
-            if ty == "[u8; 1]":
+            if re.sub(r"^&(mut )?", "", ty) == "[u8; 1]":
                 rep.ok("R-WHOCALLS", key, b.where(bi), "read_exact into a [u8; 1]: std retries Interrupted and loops over short reads, so everything above sees a byte stream")
             else:
                 rep.bad("R-WHOCALLS", "R-WHOCALLS:reader-call:%s:buffer" % b.short, b.where(bi), "read_exact buffer has type %s, not [u8; 1]: a partially filled buffer is lost when the reader fails mid-way" % ty)
